@@ -24,15 +24,18 @@ let show_dres = function
 let run toks =
   match toks with
   | ["wf"] -> if wf_schema schema then "ok true" else "ok false"
-  (* productive: the ranking computed inside the model *)
+  (* productive: the certificates computed inside the model *)
   | ["productive"] ->
       let r = auto_rank schema in
-      (if ranked schema r then "ok true" else "ok false") ^ " " ^
+      let dc = auto_dc schema in
+      (if ranked schema dc r then "ok true" else "ok false") ^ " " ^
+      String.concat "" (List.map (fun b -> if b then "1" else "0") dc) ^ " " ^
       String.concat "," (List.map (fun n -> string_of_int (int_of_nat n)) r)
-  (* setrank r0 r1 ...: check an explicit ranking with the verified checker and install it *)
-  | "setrank" :: rs ->
+  (* setrank <dc bits> r0 r1 ...: check explicit certificates with the verified checker and install the ranking *)
+  | "setrank" :: dcs :: rs ->
       let r = nat_list_of rs in
-      if ranked schema r then begin
+      let dc = List.init (String.length dcs) (fun i -> dcs.[i] = '1') in
+      if ranked schema dc r then begin
         rank := Some r;
         "ok true " ^ string_of_int (int_of_nat (max_rank r))
       end else begin rank := None; "ok false" end
